@@ -12,6 +12,7 @@ import (
 	"github.com/ThreeDotsLabs/watermill"
 	"github.com/ThreeDotsLabs/watermill/message"
 	"github.com/ThreeDotsLabs/watermill/message/router/middleware"
+	"github.com/ThreeDotsLabs/watermill/pubsub/gochannel"
 
 	"wmverif/script"
 )
@@ -76,10 +77,13 @@ type c12Err struct{ id int64 }
 func (e *c12Err) Error() string { return fmt.Sprintf("scripted failure %d", e.id) }
 
 type c12Group struct {
-	base   time.Time
-	byUUID map[string]*c12Case
-	mu     sync.Mutex
-	byGid  map[int64]*c12Case
+	closeRouter func() // router-close mode: closes the Router (once)
+	closeOnce   sync.Once
+	closePre    int64 // instant before Router.Close() was called (-1: not called)
+	base        time.Time
+	byUUID      map[string]*c12Case
+	mu          sync.Mutex
+	byGid       map[int64]*c12Case
 }
 
 func (g *c12Group) now() int64 { return int64(time.Since(g.base)) }
@@ -98,8 +102,27 @@ func (g *c12Group) handler(msg *message.Message) ([]*message.Message, error) {
 		return nil, fmt.Errorf("unknown message %s", msg.UUID)
 	}
 	c.mu.Lock()
+	if c.Done { // a redelivery (GoChannel resends a nacked message) after the case is over: not part of it
+		c.mu.Unlock()
+		return nil, fmt.Errorf("case %s is over", c.ID)
+	}
 	k := c.calls
 	c.calls++
+	if c.msg == nil { // router-close mode: GoChannel delivers its own copy; bind it at the first attempt
+		c.msg = msg
+		c.wg.Add(1)
+		go func() { // the instant the message context is seen done
+			defer c.wg.Done()
+			select {
+			case <-msg.Context().Done():
+				post := g.now()
+				c.mu.Lock()
+				c.CPost = post
+				c.mu.Unlock()
+			case <-time.After(20 * time.Second):
+			}
+		}()
+	}
 	same := int64(0)
 	if msg == c.msg {
 		same = 1
@@ -134,6 +157,19 @@ func (g *c12Group) handler(msg *message.Message) ([]*message.Message, error) {
 		c.mu.Lock()
 		c.CPre, c.CPost = pre, post
 		c.mu.Unlock()
+	}
+	if c.CancelKind == 3 && c.CancelAt == k && g.closeRouter != nil {
+		c.wg.Add(1)
+		go func() {
+			defer c.wg.Done()
+			time.Sleep(time.Duration(c.CancelDelay))
+			g.closeOnce.Do(func() {
+				g.mu.Lock()
+				g.closePre = g.now()
+				g.mu.Unlock()
+				g.closeRouter()
+			})
+		}()
 	}
 	if c.CancelKind == 2 && c.CancelAt == k {
 		c.wg.Add(1)
@@ -250,6 +286,98 @@ func (c *c12Case) record(outs []*message.Message, err error, tret int64) {
 	}
 }
 
+// router-close mode: a real Router over a real GoChannel; the Router is closed while Retry
+// sleeps in a long back-off: Run cancels its context, GoChannel's subscription context and with
+// it the context of the delivered message end, and Retry must give up (C12_gives_up_when_context_ends).
+func (g *c12Group) runRouterClose(cases []*c12Case, retryMw message.HandlerMiddleware) {
+	g.closePre = -1
+	router, err := message.NewRouter(message.RouterConfig{CloseTimeout: 8 * time.Second}, watermill.NopLogger{})
+	if err != nil {
+		return
+	}
+	ps := gochannel.NewGoChannel(gochannel.Config{}, watermill.NopLogger{})
+	router.AddHandler("h", "in", ps, "out", ps, g.handler)
+	router.AddMiddleware(g.recorderMw(), retryMw)
+	g.closeRouter = func() { _ = router.Close() }
+	ctx, cancel := context.WithCancel(context.Background())
+	defer cancel()
+	runDone := make(chan struct{})
+	go func() { _ = router.Run(ctx); close(runDone) }()
+	select {
+	case <-router.Running():
+	case <-time.After(5 * time.Second):
+		return
+	}
+	for _, c := range cases {
+		c.mu.Lock()
+		c.msg = nil
+		c.mu.Unlock()
+		if c.StartDelay > 0 {
+			time.Sleep(time.Duration(c.StartDelay))
+		}
+		_ = ps.Publish("in", message.NewMessage(c.ID, []byte("p")))
+	}
+	// wait until every case has returned (the close is triggered from inside the handler)
+	deadline := time.Now().Add(25 * time.Second)
+	for time.Now().Before(deadline) {
+		all := true
+		for _, c := range cases {
+			c.mu.Lock()
+			if !c.Done {
+				all = false
+			}
+			c.mu.Unlock()
+		}
+		if all {
+			break
+		}
+		time.Sleep(2 * time.Millisecond)
+	}
+	g.closeOnce.Do(func() { _ = router.Close() })
+	select {
+	case <-runDone:
+	case <-time.After(10 * time.Second):
+	}
+	_ = ps.Close()
+	for _, c := range cases {
+		c.wg.Wait()
+		c.mu.Lock()
+		g.mu.Lock()
+		c.CPre = g.closePre
+		g.mu.Unlock()
+		if c.CPre < 0 {
+			c.CPost = -1
+		}
+		c.mu.Unlock()
+	}
+}
+
+func (g *c12Group) recorderMw() message.HandlerMiddleware {
+	return func(next message.HandlerFunc) message.HandlerFunc {
+		return func(msg *message.Message) ([]*message.Message, error) {
+			c := g.byUUID[msg.UUID]
+			id := c12gid()
+			g.mu.Lock()
+			g.byGid[id] = c
+			g.mu.Unlock()
+			outs, err := next(msg)
+			tret := g.now()
+			if c != nil {
+				c.mu.Lock()
+				first := !c.Done
+				c.mu.Unlock()
+				if first { // GoChannel redelivers a nacked message: only the first delivery is the case
+					c.record(outs, err, tret)
+				}
+			}
+			g.mu.Lock()
+			delete(g.byGid, id)
+			g.mu.Unlock()
+			return outs, err
+		}
+	}
+}
+
 // router mode: the wrapped handler is a middleware of a handler of a real Router; a recorder
 // middleware outside of it sees what Retry returned; the Router's own goroutine per message
 // runs recorder, Retry, handler, hook and logger.
@@ -338,6 +466,10 @@ func c12RunGroup(cases []*c12Case) {
 		c.CPre, c.CPost = -1, -1
 		c.Settle = -1
 		g.byUUID[c.ID] = c
+	}
+	if cases[0].Mode == "router-close" {
+		g.runRouterClose(cases, r.Middleware)
+		return
 	}
 	if cases[0].Mode == "router" {
 		for _, c := range cases {
@@ -524,6 +656,15 @@ func c12Generate(seed int64, scale int) [][]*c12Case {
 				c.StartDelay = int64(i) * c12pick64(rng, 0, 2, 5, 9) * c12ms
 			})
 		}
+		// F2c: Router closing while a retry sleeps in a long back-off (real Router over a real GoChannel)
+		for j := 0; j <= 2; j++ {
+			cfg := c12longAfter(rng, j)
+			cfg.MR = j + 2 + rng.Intn(2)
+			add("router-close", "router-close", cfg, 1, func(i int, c *c12Case) {
+				c.Script = c12script(rng, cfg.MR+2, true)
+				c.CancelKind, c.CancelAt, c.CancelDelay = 3, j, c12pick64(rng, 1, 10, 30)*c12ms
+			})
+		}
 		// F3: the handler cancels the message context during attempt j; the next wait is long
 		for j := 0; j <= 7; j++ {
 			cfg := c12longAfter(rng, j)
@@ -576,6 +717,33 @@ func c12Generate(seed int64, scale int) [][]*c12Case {
 					c.Script[k].Sleep = c12pick64(rng, 0, 8, 12, 20, 30) * c12ms
 				}
 			})
+		}
+		// F9: configurations the code does not validate: Multiplier <= 0, negative intervals,
+		// negative MaxElapsedTime (rf = 0: the randomisation window would be inverted otherwise)
+		for i := 0; i < 10; i++ {
+			cfg := c12Cfg{MR: c12pick(rng, 2, 3, 4), Init: c12pick64(rng, 2, 5) * c12ms, MaxI: c12pick64(rng, 6, 10) * c12ms,
+				Mult: [2]int64{2, 1}, RF: [2]int64{0, 1}}
+			switch i % 5 {
+			case 0:
+				cfg.Mult = [2]int64{c12pick64(rng, -2, -1, -3), c12pick64(rng, 1, 2)}
+			case 1:
+				cfg.Mult = [2]int64{0, 1}
+				if rng.Intn(2) == 0 {
+					cfg.MaxI = -4 * c12ms
+				}
+			case 2:
+				cfg.Init = -c12pick64(rng, 3, 7) * c12ms
+			case 3:
+				cfg.MaxI = -c12pick64(rng, 2, 4) * c12ms
+				if rng.Intn(2) == 0 {
+					cfg.Mult = [2]int64{-2, 1}
+					cfg.Init = -5 * c12ms
+				}
+			case 4:
+				cfg.ME = -c12pick64(rng, 1, 20) * c12ms
+			}
+			c12notes(rng, &cfg)
+			add("unvalidated-config", c12pickMode(rng), cfg, 1+rng.Intn(2), func(i int, c *c12Case) { c.Script = c12randScript(rng, cfg.MR) })
 		}
 		// F8: boundaries: MaxRetries 0 / negative / 1, zero intervals, Initial > Max, Multiplier < 1, rf = 1
 		for i := 0; i < 12; i++ {
